@@ -20,4 +20,5 @@ func registerAll() {
 	core.Register("C11", execC11)
 	core.Register("C03", execC03)
 	core.Register("C16", execC16)
+	core.Register("C19", execC19)
 }
